@@ -87,6 +87,13 @@ def get_use_tree(
                     # Keep the renames of the earlier USE statements of this module
                     use_dict_mod.rename_map[only_name] = new_rename
                     use_dict[use_stmnt.mod_name] = use_dict_mod
+            elif type(use_stmnt) is Import:
+                # A bare IMPORT after (or before) one with a name list: everything
+                use_dict[use_stmnt.mod_name] = Import(
+                    name=use_stmnt.mod_name, import_type=ImportTypes.ALL
+                )
+                with contextlib.suppress(AttributeError):
+                    use_dict[use_stmnt.mod_name].scope = scope.parent.parent
             else:
                 use_dict[use_stmnt.mod_name] = Use(use_stmnt.mod_name)
             # Skip if we have already visited module with the same only list
